@@ -291,6 +291,16 @@ pub fn run(tier: Tier) -> i32 {
             }
         }
     }
+    {
+        let mut cfgs = Vec::new();
+        for (len, alpha, beta) in [(3usize, 0.0f64, 0.3f64), (10, 0.42, 0.5), (25, 0.55, 0.2), (40, 0.3, 0.8)] {
+            let pa: Vec<f64> = (0..len).map(|m| if m == 0 { 0.3 } else { 0.8 / (m as f64 + 1.0) * if m % 2 == 0 { -1.0 } else { 1.0 } }).collect();
+            let pb: Vec<f64> = (0..len).map(|m| if m == 0 { -0.2 } else { 0.5 / (m as f64 + 1.0) }).collect();
+            cfgs.push((len, 0usize, false, alpha, beta, pa, pb));
+        }
+        let n = crate::props::c06::clone_midstream(&rep, &cfgs);
+        rep.note("vocoder_clone_cases", json!(n));
+    }
     rep.note("noise_excited_cases", json!(noise_cases));
     rep.note("glides", json!({"cases": glides.len(), "frames": tier.pick(&[8usize, 300, 2500][..], &[8usize, 300, 2500, 12000][..]), "worst_energy_rel": *glide_worst.lock().unwrap()}));
     let w = *worst.lock().unwrap();
